@@ -916,7 +916,7 @@ func (c *e2Client) life(ctx context.Context, wg *sync.WaitGroup, barrier *sync.W
 			}
 			r.count("hostile_posts", 1)
 		}
-		if r.prop == "C10" && r.choice(fmt.Sprintf("client/%d/ping", c.idx), 4) == 0 {
+		if (r.prop == "C10" || r.prop == "C05") && r.choice(fmt.Sprintf("client/%d/ping", c.idx), 4) == 0 {
 			line = "PING :" + p.token
 			p.ping = true
 		}
@@ -2303,7 +2303,9 @@ func (r *e2Run) finalChecks(lastFault time.Time) {
 					cnt++
 				}
 			}
-			if cnt > 1 {
+			if cnt > 1 && r.prop == "C05" {
+				r.violate("C05", "message-duplicated", "message-duplicated:PONG", "client %d posted PING %s once (attempts=%d, retried by the protocol after a lost answer); it was answered %d times", c.idx, p.token, p.attempts, cnt)
+			} else if cnt > 1 {
 				r.violate("C10", "retry-applied-twice", "retry-applied-twice:PING", "client %d posted PING %s once and repeated it with the same client message id; it was answered %d times", c.idx, p.token, cnt)
 			}
 			r.count("retried_pings_checked", 1)
